@@ -167,6 +167,21 @@ def chain_programs(level=0, paths=('a', 'd/x', 'd/e/z'), modes=('ok', 'rb')):
     yield from programs(3, level, paths=list(paths), bf_modes=list(modes), sb_modes=list(modes), catches=(True,))
 
 
+def preobs_programs(level=0):
+    """A call observes a directory *before* a nested call (two levels further down, below a build_file
+    that fails afterwards or not) creates it: sb{q; bf F{bf G}} and bf H{q; bf F{bf G}}."""
+    for kind, p in (('is_dir', 'd'), ('exists', 'd'), ('list_dir', ''), ('walk', ''), ('is_dir', 'd/e'), ('list_dir', 'd')):
+        for fmode in ('ok', 'rb', 'ra'):
+            for g in ('d/x', 'd/e/z'):
+                for gmode in ('ok', 'rb'):
+                    inner = {'k': 'bf', 'p': 'a', 'mode': fmode, 'catch': True,
+                             'ch': [{'k': 'bf', 'p': g, 'mode': gmode, 'catch': True, 'ch': []}]}
+                    obs = {'k': 'q', 'kind': kind, 'p': p}
+                    yield {'level': level, 'root': [{'k': 'sb', 'mode': 'ok', 'catch': True, 'args': [1], 'ch': [obs, inner]}]}
+                    yield {'level': level, 'root': [{'k': 'bf', 'p': 'q/h', 'mode': 'ok', 'catch': True, 'ch': [obs, inner]}]}
+                    yield {'level': level, 'root': [{'k': 'sb', 'mode': 'ok', 'catch': True, 'args': [1], 'ch': [inner, obs]}]}
+
+
 def family(sp):
     f = sp.get('family', 'skel')
     if f == 'skel':
@@ -175,6 +190,8 @@ def family(sp):
         return observer_programs(sp['level'], **sp.get('kw', {}))
     if f == 'if':
         return if_programs(sp['level'])
+    if f == 'preobs':
+        return preobs_programs(sp['level'])
     if f == 'chain3':
         return chain_programs(sp['level'], **sp.get('kw', {}))
     raise ValueError(f)
